@@ -13,6 +13,8 @@ pub enum Step {
     Key(usize, bool, bool, bool, bool),
     /// set the navigation node to the k-th id (monotone index) with offset 0
     SetNode(u16),
+    /// the same with a character offset (an AT routing the braille cursor into a token)
+    SetNodeAt(u16, usize),
     /// set another expression (index into `exprs`)
     SetMathml(u8),
 }
@@ -95,11 +97,16 @@ fn run_step(step: &Step, sess: &mut Sess, exprs: &[String]) -> Result<Option<Str
             Err(Fail::Panic(p)) => Err((p.signature(), format!("do_navigate_keypress({}) panicked: {} at {}", k, p.msg, p.loc))),
             _ => Ok(None),
         },
-        Step::SetNode(k) => {
+        Step::SetNode(_) | Step::SetNodeAt(..) => {
+            let (k, off) = match step {
+                Step::SetNode(k) => (*k, 0),
+                Step::SetNodeAt(k, o) => (*k, *o),
+                _ => unreachable!(),
+            };
             let mut ids: Vec<&String> = sess.paths.keys().collect();
             ids.sort_by_key(|i| sess.paths[*i].clone());
-            if let Some(id) = ids.get((*k as usize * ids.len().max(1)) >> 16) {
-                if let Err(Fail::Panic(p)) = api::set_nav_node(id, 0) {
+            if let Some(id) = ids.get((k as usize * ids.len().max(1)) >> 16) {
+                if let Err(Fail::Panic(p)) = api::set_nav_node(id, off) {
                     return Err((p.signature(), format!("set_navigation_node panicked: {}", p.msg)));
                 }
             }
@@ -204,7 +211,8 @@ impl C11 {
                 }
                 if let Some(k) = cmd.strip_prefix("MoveTo") {
                     if let Some(want) = markers.get(&k.chars().next().unwrap_or('0')) {
-                        if &after != want {
+                        // the statement is about the marked *node*: the character offset inside it is not compared
+                        if after.0 != want.0 {
                             fail!("moveto-misses-placemarker".to_string(), format!("{} arrived at {:?}, the marker was set at {:?}", cmd, after, want));
                         }
                     }
@@ -213,7 +221,7 @@ impl C11 {
                 if cmd == "MoveLastLocation" {
                     used_marker_or_undo = true;
                     if let Some((p, q)) = &last_move {
-                        if q == &before && &after != p {
+                        if q == &before && after.0 != p.0 {
                             fail!("undo-does-not-return".to_string(), format!("MoveLastLocation after a move from {:?} to {:?} arrived at {:?}", p, q, after));
                         }
                     }
@@ -297,6 +305,7 @@ impl Property for C11 {
             6 => sel(NAV_COMMANDS).prop_map(|s| Step::Cmd(s.to_string())),
             2 => (sel(&[37usize, 38, 39, 40, 13, 32, 36, 35, 8, 27, 48, 49, 57]), any::<bool>(), any::<bool>(), any::<bool>()).prop_map(|(k, s, c, a)| Step::Key(k, s, c, a, false)),
             1 => any::<u16>().prop_map(Step::SetNode),
+            1 => (any::<u16>(), sel(&[1usize, 2, 3, 7, 1000])).prop_map(|(k, o)| Step::SetNodeAt(k, o)),
             1 => (0..3u8).prop_map(Step::SetMathml),
         ];
         let max = if tier == Tier::Thorough { 60 } else { 40 };
@@ -318,6 +327,6 @@ impl Property for C11 {
         300
     }
     fn rule(&self) -> String {
-        "cases = histories of 1..40 (thorough 60) navigation steps (all 74 command names with extra weight on the move/zoom family, key presses, set_navigation_node, set_mathml of another expression out of 2-3 textbook expressions, with or without author ids shared between the expressions) x NavMode x Overview x AutoZoomOut x NavVerbosity in a fresh session; oracle after every step = the navigation id is an id of the current returned MathML and get_navigation_mathml succeeds; the position is the root right after set_mathml; Read*/Describe*/WhereAmI*/ToggleSpeakMode do not move; MoveToK returns to where SetPlacemarkerK was issued (same expression); MoveLastLocation right after a move from p to q returns to p; and the positions (as tree paths) reached since the last set_mathml equal those of the same commands in a fresh session; non-trivial = >= 5 position changes and a place marker or undo".into()
+        "cases = histories of 1..40 (thorough 60) navigation steps (all 74 command names with extra weight on the move/zoom family, key presses, set_navigation_node with and without a character offset, set_mathml of another expression out of 2-3 textbook expressions, with or without author ids shared between the expressions) x NavMode x Overview x AutoZoomOut x NavVerbosity in a fresh session; oracle after every step = the navigation id is an id of the current returned MathML and get_navigation_mathml succeeds; the position is the root right after set_mathml; Read*/Describe*/WhereAmI*/ToggleSpeakMode do not move; MoveToK returns to where SetPlacemarkerK was issued (same expression); MoveLastLocation right after a move from p to q returns to p; and the positions (as tree paths) reached since the last set_mathml equal those of the same commands in a fresh session; non-trivial = >= 5 position changes and a place marker or undo".into()
     }
 }
